@@ -115,6 +115,19 @@ def directed():
                     st += [{'a': 'Reopen'}] + APPSET(SETB(ids, 2, ['a'], o)) + [{'a': 'Reopen'}]
                     st += [{'a': 'RdNew', 'r': 'r1', 'c': False, 'rev': False, 's': 0}] + [{'a': 'RdNext', 'r': 'r1'}] * (k + 2)
                     out.append(({'cap': 2, 'occ': False, 'compact': False, 'msgs': 0}, st, 'appendset-vs-truncate'))
+    # F6: a reader whose segment a compaction replaces reads again while the clean is between rewriting and swap,
+    #     and after the swap
+    for k in (3, 4, 5):
+        for first in (0, 1, 2):
+            for rev in (False, True):
+                ids = Ids()
+                st = []
+                for i in range(k):
+                    st += APP(ids.batch(1, ['a' if i % 2 == 0 else 'b']))
+                st += APP(ids.batch(1, ['a'])) + [{'a': 'SetHW', 'h': k - 1}]
+                st += [{'a': 'RdNew', 'r': 'r1', 'c': False, 'rev': rev, 's': k if rev else 0}] + [{'a': 'RdNext', 'r': 'r1'}] * first
+                st += [{'a': 'ClnBegin'}] + S('cln', 1) + [{'a': 'RdNext', 'r': 'r1'}] * 2 + S('cln', 2) + [{'a': 'RdNext', 'r': 'r1'}] * (k + 2)
+                out.append(({'cap': 2, 'occ': False, 'compact': True, 'msgs': 0}, st, 'reader-vs-compaction'))
     # F2: a compacting clean overlapped by appends that roll a segment / open a new leader epoch
     for k in (2, 3, 4):
         for eps in ((1, 1, 2), (1, 2, 3), (1, 1, 1)):
@@ -316,6 +329,38 @@ def judge(rep, behaviours, trace):
     return res, feats, bad
 
 
+def stress_rounds(rng, n, msgs):
+    out = []
+    for i in range(n):
+        mix = i % 5
+        out.append({'id': i + 1, 'steps': [], 'cfg': {
+            'seed': rng.randrange(1 << 30), 'n': msgs, 'occ': False, 'cap': rng.choice([2, 3, 5]),
+            'compact': mix in (1, 4), 'msgs': 7 if mix == 2 else 0, 'trunc': mix in (3, 4)}})
+    return out
+
+
+def execute_stress(rounds, d, race):
+    stim = os.path.join(d, 'stress.json')
+    trace = os.path.join(d, 'strace-%s.ndjson' % ('race' if race else 'plain'))
+    core.write_json(stim, {'behaviours': rounds})
+    rc, out, wall = core.go_test(PKG, '^TestVerifLogConcStress$', {'VERIF_STIMULI': stim, 'VERIF_TRACE_OUT': trace},
+                                 timeout=900, subs=['x05'], race=race)
+    if rc != 0 or not os.path.exists(trace):
+        what = 'the race detector reports a data race' if 'DATA RACE' in out else 'the stress run died'
+        raise core.Inconclusive('X05 stress (race=%s): %s - to be reproduced through the gates before it counts: %s'
+                                % (race, what, _head(out)))
+    return trace
+
+
+def judge_stress(trace):
+    for e in core.read_ndjson(trace):
+        if e['a'] == 'Timeout':
+            raise core.Inconclusive('stress round %s: %s' % (e['t'], e.get('note')))
+    res = _retry(core.tlc_trace, 'Trace_LogConc.tla', 'Trace_LogConc.cfg', trace, timeout=900)
+    bad = [(tid, line, action, name) for kind, tid, line, action, name in res['fails'] if kind == 'P']
+    return res, bad
+
+
 def run(rep, tier, seed, replay):
     rng = random.Random(seed)
     if replay:
@@ -328,15 +373,17 @@ def run(rep, tier, seed, replay):
         return
     thorough = tier == 'thorough'
     # 1. design checks
-    for name, cfg in ([('MC_LogConc', 'MC_LogConc.cfg'), ('MC_LogConc(occ)', 'MC_LogConc_occ.cfg')] if not thorough else
+    for name, cfg in ([('MC_LogConc', 'MC_LogConc.cfg'), ('MC_LogConc(occ)', 'MC_LogConc_occ.cfg'),
+                       ('MC_LogConc(AppendMessageSet, reopen)', 'MC_LogConc_set.cfg')] if not thorough else
                       [('MC_LogConc', 'MC_LogConc_thorough.cfg'), ('MC_LogConc(occ)', 'MC_LogConc_occ.cfg'),
+                       ('MC_LogConc(AppendMessageSet, reopen)', 'MC_LogConc_set.cfg'),
                        ('MC_LogConc(readers)', 'MC_LogConc_rd.cfg')]):
         res = _check('MC_LogConc.tla', cfg, timeout=2400)
         rep.add_design(name, res)
         if res['violated']:
             raise core.Inconclusive('the design check of LogConc.tla fails (%s): not a verdict by itself' % res['violated'])
     # 2. behaviours: simulation pool (feature-guided selection) + phase-scheduled families
-    num, depth, keep = (3000, 45, 250) if not thorough else (30000, 60, 2500)
+    num, depth, keep = (3000, 45, 250) if not thorough else (15000, 60, 1500)
     sims = _retry(core.tlc_simulate, 'MC_LogConc.tla', 'Sim_LogConc.cfg', num, depth, seed, timeout=1200)
     chosen, simcount = from_sim(sims, 1, keep, rng)
     behaviours = chosen + directed()
@@ -351,6 +398,25 @@ def run(rep, tier, seed, replay):
             trace2 = execute(directed(), d, race=True, timeout=1500)
             res2, feats2, bad2 = judge(rep, directed(), trace2)
             rep.cov['race_detector_lines'] = res2['validated']
+    # 4. stress: real schedules, plain and with the race detector; TLC judges the final state and what the calls
+    #    returned.  A finding counts only after reproduction through the gates.
+    n_rounds, n_msgs = (10, 150) if not thorough else (50, 300)
+    stress_bad, n_stress = [], 0
+    with core.scratch('x05s') as d:
+        for race in (False, True):
+            rounds = stress_rounds(rng, n_rounds if not race else max(5, n_rounds // 2), n_msgs)
+            strace = execute_stress(rounds, d, race)
+            sres, sbad = judge_stress(strace)
+            n_stress += len(rounds)
+            known = {f['id'] for f in rep.findings if f.get('status') == 'open'}
+            for tid, line, action, name in sbad:
+                if name.endswith(':append-overlaps-truncate') and rep.known_hit:
+                    continue      # the open finding, established through the gates in this very run
+                stress_bad.append({'race': race, 'round': rounds[tid - 1], 'check': name})
+    rep.cov['stress_rounds'] = n_stress
+    if stress_bad and not bad:
+        raise core.Inconclusive('stress run shows %s but it was not reproduced through the gates: %s'
+                                % (stress_bad[0]['check'], str(stress_bad[0])[:600]))
     rep.cov['traces_validated_against_impl'] = len(behaviours)
     rep.cov['trace_lines_validated'] = res['validated']
     hist = {}
